@@ -51,13 +51,34 @@ prop('C17',
               'Resume is verified for a fresh start (c == nil); resuming from a checkpoint trusts the checkpoint\'s own fields'],
      not_decided='that each whitelisted file comes out identical to full application (follows from processRsync/processBsdiff consuming the same message range: their bodies are not under contract yet); reads of the recording pool')
 
+WSYNC_DIFF = [('/wsync', '(*Context).findUniqueHash'), ('/wsync', '(*Context).ComputeDiff$2'), ('/wsync', '(*Context).ComputeDiff'),
+              ('/wsync', '(*Context).ApplySingleFull'), ('/wsync', 'makeOperationCleaner$1')]
+
+prop('C11',
+     functions=WSYNC_DIFF + HASHING,
+     assumes=['A-MD5', 'A-IO (io.ReadAtLeast, io.LimitReader, io.CopyBuffer: in-context contracts)', 'A-POOL', 'A-SIZE (blockSize in (0, 2^30])'],
+     not_decided='that the concatenation of what the emitted operations replay equals the source (the ghost-source invariant I5-I7 of DESIGN A.1 is not carried: the check proves the bookkeeping is in range, the op-level discipline and the replay length, not the byte equality); NewBlockLibrary is not under contract yet')
+
+prop('C08',
+     functions=[('/pwr', 'makeOpsWriter$1'), ('/pwr', 'ComputeNumBlocks'), ('/pwr', 'ComputeBlockSize')] + WSYNC_DIFF + HASHING,
+     assumes=['A-MD5', 'A-IO'],
+     not_decided='the (2k+2)*64KiB bound for k localised edits (a resynchronisation argument over an unbounded alignment search, not a function contract); that the rolling checksum equals the from-scratch one on every full window (invariant I7 of DESIGN A.1 not carried: only the from-scratch hash is proved against the specification, and the lookup is proved to be skipped only when the rolling value is unchanged); NewBlockLibrary (bucket completeness) is not under contract')
+
+prop('C01',
+     functions=[('/pwr', 'makeOpsWriter$1'), ('/pwr', 'CompressWire'), ('/pwr', 'ComputeNumBlocks'), ('/pwr', 'ComputeBlockSize')] + PATCHER + WSYNC_DIFF + HASHING + WIRE_READ,
+     assumes=['everything C11 and C17 assume', 'A-PROTO', 'A-COMP', 'A-FS (the bowl and the file system)'],
+     not_decided='byte equality of the replay with the new file (see C11: ghost-source invariant not carried); directory/symlink creation and leftover deletion (tlc.Container.Prepare, outside /repo); the three-goroutine plumbing of WritePatch; processRsync/processBsdiff bodies (not under contract); compression round trip (external codecs)')
+
 # properties with a registered check
-CLAIMED = {'C18', 'C04', 'C09', 'C17'}
+CLAIMED = {'C18', 'C04', 'C09', 'C17', 'C11', 'C08', 'C01'}
 # reasons for properties not claimed (kept current)
 NOT_APPLICABLE = {}
 LEVEL_TEXT = {
  'C18': {'text': 'Proof (modular, unbounded in write slicing and sizes): drip.Write/Close keep the ghost relation between accepted, validated and forwarded bytes for every slicing; the validate closure advances the block index once per call and emits one wound per call; ValidateAsWound/AsError decide exactly healthyBlock and report the signed block range.', 'design_ref': 'DESIGN.md §5 C18, App. A.2'},
  'C09': {'text': 'Proof: every byte a safekeeper Read hands out without error is a byte of the signed file (validated block + aligned read), nothing beyond the signed length is handed out, io.EOF is only reported at the signed end, the verdict cache only remembers valid for blocks that are on disk unchanged, and an undamaged file is never rejected at any offset 0..S.', 'design_ref': 'DESIGN.md §5 C09'},
  'C17': {'text': 'Proof: skipFile consumes exactly the rest of the series up to and including its end marker for either series kind (stream-grammar ghost + protobuf cross-decoding facts) and touches neither pool nor bowl (frame); Resume checks the header index and kind before consulting the whitelist, skips only unlisted files, processes only listed ones, and counts exactly the processed files.', 'design_ref': 'DESIGN.md §5 C17, App. A.5'},
+ 'C11': {'text': 'Proof (unbounded in source length, block size and library): every index into the reusable buffer is in range across wraps and refills; every operation goes through enqueue; no data op exceeds MaxDataOp; a pending block range is extended only by the adjacent range of the same file and is forwarded before any data op; a block is accepted only on equal strong hash and short-size class, never for an empty window, and the bucket search is complete with the preferred file first; a block range replays spanLen bytes from bs*k.', 'design_ref': 'DESIGN.md §5 C11, App. A.1'},
+ 'C08': {'text': 'Proof of the function-level clauses: reused + fresh byte accounting grows by exactly what each operation replays (spanLen over the old file size / len(Data)); the from-scratch weak hash equals its recursive specification; matching is complete within a bucket, preferred file first; the bucket lookup is skipped only when the rolling value did not change; no match is accepted on the weak hash alone.', 'design_ref': 'DESIGN.md §5 C08'},
+ 'C01': {'text': 'Proof of the per-file function-level clauses that diff-then-apply rests on: whole-file-op detection is sound (same size, starts at block 0, spans all blocks, index in range), op <-> message field mapping in both directions, unknown op types are errors, per-file framing is consumed up to the end marker, no compressor is involved exactly when the algorithm is NONE, plus everything proved for C11.', 'design_ref': 'DESIGN.md §5 C01'},
  'C04': {'text': 'Proof of the function-level clauses: split function cases, one hash per scanned block plus the empty-file entry with correct index/short size, hash grouping by prefix sums of per-file hash counts (ComputeHashInfo, incl. error iff count differs), block validator verdicts; rolling/from-scratch weak hash equals the recursive specification.', 'design_ref': 'DESIGN.md §5 C04'},
 }
